@@ -131,24 +131,27 @@ def can_render(ff, fmt):
     return True
 
 
-def render_ff(ff, fmt, wd, tag="ff"):
-    """write the abstract force field as real files; returns the list of paths (blocks, multi-residue blocks, mods, links)"""
+def render_ff(ff, fmt, wd, tag="ff", itp_first=False, trailing_itp=False):
+    """write the abstract force field as real files; returns the list of paths (blocks, multi-residue blocks, mods, links).
+    itp_first: the polyply .itp file of the multi-residue blocks is listed before the other block file;
+    trailing_itp: an unrelated one-atom block in polyply .itp syntax is read last."""
     wd = Path(wd)
     wd.mkdir(parents=True, exist_ok=True)
     paths = []
     single = [b for b in ff["blocks"] if names_unique(b)]
     multi = [b for b in ff["blocks"] if not names_unique(b)]
-    # polyply .itp files come first: PolyplyParser.finalize turns every section of every block that is already in the force
-    # field into edges, also of blocks read from an earlier .ff file (observation F33); the domain of C14 keeps exclusions /
-    # pairs / virtual-site sections out of the edge-creating ones, so .ff blocks must be read after the .itp files
+    # F33 (repaired ff3a967): finishing a polyply .itp file used to turn every section of every block already in the force
+    # field into edges, also of blocks read from an earlier .ff file - the order of the files is therefore varied
+    bl = []
     if multi:      # atom names repeat across the residues of a multi-residue block: only the index syntax can express it
         p = wd / ("%s_multi.itp" % tag)
         p.write_text("\n".join(block_text(b, "itp") for b in multi))
-        paths.append(p)
+        bl.append(p)
     if single:
         p = wd / ("%s_blocks.%s" % (tag, "ff" if fmt == "ff" else "itp"))
         p.write_text("\n".join(block_text(b, fmt) for b in single))
-        paths.append(p)
+        bl.append(p)
+    paths += bl if itp_first else bl[::-1]
     if ff.get("mods"):
         p = wd / ("%s_mods.ff" % tag)
         p.write_text("\n".join(mod_text(m) for m in ff["mods"]))
@@ -156,6 +159,10 @@ def render_ff(ff, fmt, wd, tag="ff"):
     if ff.get("links"):
         p = wd / ("%s_links.ff" % tag)
         p.write_text("\n".join(link_text(l) for l in ff["links"]))
+        paths.append(p)
+    if trailing_itp:
+        p = wd / ("%s_unrelated.itp" % tag)
+        p.write_text("[ moleculetype ]\nZZ9 1\n[ atoms ]\n1 TZ 1 ZZ9 z1 1 0.0 1.0\n")
         paths.append(p)
     return paths
 
@@ -451,8 +458,8 @@ def ffs_of(res):
 
 # --------------------------------------------------------------------------- attribution of a deviation to an open finding
 
-ERR_FINDING = {"mismatch": "F31", "index": "F14", "fragindex": "F32"}
-PRIORITY = ["F30", "F14", "F32", "F31"]
+ERR_FINDING = {"index": "F14"}
+PRIORITY = ["F30", "F14"]
 
 
 def attribute(fired, err=""):
